@@ -318,6 +318,30 @@ theorem exchange_on_delivery (pre : List Event) (d : Bytes)
       rw [if_neg this]
       exact hw
 
+/-! ### The parameters ARE the packet (second audit, finding 12)
+
+`Params.wire` and `Params.secret` are free fields of the machine; the call `c.Exchange(ctx, packet, addr)` fixes them:
+the wire bytes are `packet.Encode()` and the secret is `packet.Secret` (client.go:51-54, :120).  `Params.ofPacket` is how the
+drivers build their `Params`; the theorem restates soundness for "the request actually sent and the packet's secret". -/
+
+/-- the machine's parameters for `c.Exchange(ctx, pk, addr)` (`Params.ofPacket`, which the drivers use) -/
+abbrev paramsOf (cfg : Cfg) (retry : Int) (pk : Packet) : Params := Params.ofPacket H cfg retry pk
+
+/-- Exchange returns a packet only if it is the parse of a datagram that carries a valid response authenticator for
+    the ENCODING OF THE PACKET IT WAS GIVEN, under THAT PACKET'S secret (unless verification is disabled) - and that
+    encoding is the only thing it ever wrote -/
+theorem exchange_reply_authentic_for_the_packet_given (cfg : Cfg) (retry : Int) (pk : Packet) (evs : List Event) (p : Packet)
+    (h : (reach H (paramsOf H cfg retry pk) evs).phase = .returned (.reply p)) :
+    ∃ w pre d, encode H pk = .ok w ∧ delivered H (paramsOf H cfg retry pk) evs = pre ++ [d] ∧
+      parse (readBuf d) pk.secret = .ok p ∧
+      (cfg.skipVerify = true ∨ isAuthenticResponse H (readBuf d) w pk.secret = true) ∧
+      (∀ d', d' ∈ pre → Spec.acceptable H cfg w pk.secret d' = false) ∧
+      (∀ x, x ∈ (reach H (paramsOf H cfg retry pk) evs).sent → x = w) := by
+  obtain ⟨pre, d, hd, hp, hv, hpre, _, hw, _, hs⟩ := exchange_reply_sound H (paramsOf H cfg retry pk) evs p h
+  exact ⟨_, pre, d, hw, hd, hp, hv, hpre, hs⟩
+
+-- (a packet `Encode` refuses is never sent and never answered: `C08.encode_error_returns_first`)
+
 end machine
 
 /-! ### Non-vacuity (tests, evaluated by the kernel on a toy hash) -/
